@@ -3,14 +3,25 @@
 Engine E4 (simulated Courier transport, real CourierServer / CourierClient /
 RemoteObject / RemoteIterator / RemoteIteratorQueue code) with real threads.
 Oracle: the same expression evaluated locally (lazy and eager twin).
+
+Chunk modes: 'mixed' (expression / chain / iterator / async_iter / concurrent / shutdown
+cases drawn per index) and 'scen' (scenario cases that need a forced overlap of server
+handlers or a server life cycle: cached call under concurrent clients, concurrent inserts
+into a full LazyFn cache, cached call with a by-value pickled callable, restart).
+Mechanism keys of the scenario / input classes are only given when the case belongs to the
+class AND the observed signature is the one of the root cause (see _expr_mechanism,
+_exc_elem_mechanism, case_async_iter and the scen_* functions); everything else keeps a
+generic '<class>:other' style key.
 """
 
 from __future__ import annotations
 
 import asyncio
+import concurrent.futures as _cf
 import itertools
 import random
 import threading
+import time as _time
 
 ID = 'C14'
 LEVEL = 'exploration'
@@ -20,32 +31,76 @@ RULE = (
     'client call kind sync/async) | (remote-object chain of 3-10 attribute/index/call/mutation '
     'operations against a local twin) | (remote iterator / remote queue over a generator with '
     'length 0-7, batch mode, optional failure) | (2-4 concurrent client threads interleaving '
-    'expression evaluations) | (shutdown requested, raising / non-raising evaluations). '
+    'expression evaluations) | (shutdown requested, raising / non-raising evaluations) | '
+    '(async_iter / async_remote_iter over a source that works, fails mid-stream, or fails while '
+    'being constructed) | scenario: (2-4 concurrent clients requesting one cached call whose '
+    'constructor is held until the callers overlap) | (2-3 concurrent inserts into a full, '
+    'harness-reduced LazyFn cache, the eviction victim hash held until they overlap) | (cached call '
+    'whose callable / argument is pickled by value, requested 2-4 times) | (start / stop / start / '
+    'stop life cycles of a CourierServer with evaluations in between). Values include exception '
+    'INSTANCES (returned or yielded, never raised). '
     'Non-trivial = expression depth >= 2 or the expression raises or a lazy result / remote object / '
     'iterator is involved; distinct = hash of the case description')
 ASSUMPTIONS = [
-    'transport stand-in semantics (pickle round trip, concurrent handlers, handler exception -> status error, deadline -> code 4); client and server share one process, so cloudpickle ships the test callables by reference',
+    'transport stand-in semantics (pickle round trip, concurrent handlers, handler exception -> status error, deadline -> code 4); client and server share one process, so cloudpickle ships the test callables by reference (except the lambdas / closures / functools.partial objects of the by-value scenario, which are the input class under test)',
     'attribute names that collide with RemoteObject/LazyObject fields (value, id, worker, result_, ...) are not forwarded by design and are not generated',
     'exceptions are compared by type and str(); notes added by the library are ignored',
-    'values are compared after the pickle round trip by ==',
+    'values are compared after the pickle round trip by ==; exception instances occurring as values are compared by (type, str)',
+    'scenario cases reach into the server process (same process): the LazyFn cache is cleared before / after, its maxsize is reduced by the harness for the eviction scenario and restored, the fire-and-forget thread pool of the server is wrapped to keep the futures it would drop',
+    'overlap of server handlers is forced by user callables (constructor / __hash__) that wait on an event; the event is released when all callers arrived or 0.4 s after the first one (so a serialising implementation is never blocked); a verdict is only derived from counted evaluations / returned values, never from the expiry',
+    'a queue is called dead (async_iter) from its state: the enqueue task finished with an exception while the queue recorded neither an exception nor an enqueuer nor exhaustion; no deadline is involved',
 ]
 REQUIRED = ['expr_cases', 'expr_raising', 'async_cases', 'chain_ops', 'remote_objects',
             'iterator_cases', 'queue_cases', 'concurrent_cases', 'shutdown_cases', 'inflight_shutdown_cases',
-            'transport_calls']
+            'transport_calls', 'exc_valued_results', 'exc_valued_streams', 'async_iter_cases',
+            'async_iter_construction_failures', 'scen_cached_concurrent', 'scen_lru_race',
+            'scen_ident_cached', 'scen_ident_control', 'scen_restart', 'restart_equivalence_checks']
 CHUNK_TIMEOUT_S = {'quick': 150, 'thorough': 1500}
 
 
 def plan(tier, seed):
   n = 300 if tier == 'quick' else 4000
   chunks = 16 if tier == 'quick' else 48
-  return [{'chunk': i, 'n': n, 'rseed': seed} for i in range(chunks)]
+  specs = [{'chunk': i, 'n': n, 'rseed': seed, 'mode': 'mixed'} for i in range(chunks)]
+  n_scen, scen_chunks = (24, 8) if tier == 'quick' else (240, 16)
+  specs += [{'chunk': 1000 + i, 'n': n_scen, 'rseed': seed, 'mode': 'scen'}
+            for i in range(scen_chunks)]
+  return specs
 
 
 def _outcome(fn):
+  from vlib import c14lib
   try:
-    return ('ok', fn())
+    return ('ok', c14lib.norm(fn()))
   except BaseException as e:  # pylint: disable=broad-exception-caught
     return ('exc', type(e).__name__, str(e))
+
+
+def _is_excval(v):
+  from vlib import c14lib
+  return isinstance(v, c14lib.ExcVal)
+
+
+def _expr_mechanism(local, remote, default):
+  """Input class 'the value IS an exception instance' + 'the client raised exactly it'."""
+  if local[0] == 'ok' and _is_excval(local[1]) and remote[0] == 'exc':
+    ltype, lmsg = local[1]
+    if remote[2] == lmsg and (remote[1] == ltype or
+                              (ltype == 'StopIteration' and remote[1] == 'StopAsyncIteration')):
+      return 'exception-valued-result-raised'
+  return default
+
+
+class _RecPool:
+  """Keeps the futures of the server's fire-and-forget submissions (it drops them)."""
+
+  def __init__(self, real):
+    self.real, self.futs = real, []
+
+  def submit(self, fn, *a, **k):
+    f = self.real.submit(fn, *a, **k)
+    self.futs.append(f)
+    return f
 
 
 def _same(a, b):
@@ -73,6 +128,9 @@ class Env:
     self.lazy_fns = lazy_fns
     self.cu = courier_utils
     self.server = cwork.start_servers(1, 'c14srv', prefetch=True)[0]
+    self.pool = _RecPool(self.server._thread_pool)  # pylint: disable=protected-access
+    self.server._thread_pool = self.pool  # pylint: disable=protected-access
+    self.probed = False
     self.client = courier_utils.CourierClient(self.server.address, call_timeout=30)
     self.client.wait_until_alive(deadline_secs=20)
     self.loop = asyncio.new_event_loop()
@@ -108,12 +166,23 @@ def case_expr(ctx, env, rng, cid):
   ctx.count('expr_cases')
   if local[0] == 'exc':
     ctx.count('expr_raising')
+  if local[0] == 'ok' and _is_excval(local[1]):
+    ctx.count('exc_valued_results')
   ctx.case(('expr', spec, use_async), depth >= 2 or local[0] == 'exc')
   case = {'kind': 'expr', 'cid': cid}
   if not _same(local, remote):
-    ctx.violation('remote_differs_from_local', case,
+    mech = _expr_mechanism(local, remote, 'remote-eval-differs')
+    ctx.violation('exception_value_raised_by_client' if mech != 'remote-eval-differs'
+                  else 'remote_differs_from_local', case,
                   {'spec': spec, 'local': repr(local), 'remote': repr(remote),
-                   'async': use_async}, mechanism='remote-eval-differs')
+                   'async': use_async}, mechanism=mech)
+  if cid % 50 == 11:
+    # observation only: an exception class whose __init__ does not accept its own args
+    lz = env.lazy_fns.trace(c14lib.boom_custom)('u%d' % (cid % 3), 3)
+    lo = _outcome(lambda: env.lazy_fns.maybe_make(lz))
+    ro = _outcome(lambda: env.client.get_result(lz))
+    if not _same(lo, ro):
+      ctx.observe('custom_init_exception_not_rebuilt', {'local': repr(lo), 'remote': repr(ro)})
   if not _same(eager, local):
     ctx.observe('lazy_differs_from_eager', {'spec': spec, 'eager': repr(eager),
                                              'lazy': repr(local)})
@@ -179,6 +248,33 @@ def case_chain(ctx, env, rng, cid):
   ctx.case(('chain', v, elems, ops), True)
 
 
+def _gen_elems(rng):
+  """0-7 element specs; about 2/3 of the streams contain exception INSTANCES as elements."""
+  n = rng.randint(0, 7)
+  with_exc = rng.random() < 0.67
+  out = []
+  for i in range(n):
+    if with_exc and rng.random() < 0.35:
+      out.append(['exc', rng.choice(['value', 'key', 'app', 'stop', 'runtime', 'stop']),
+                  rng.choice(['bad', 'k', 'x y'])])
+    else:
+      out.append(i)
+  return out
+
+
+def _exc_elem_mechanism(want, got, end):
+  """Stream has exception-valued elements and the remote side stopped exactly at the first one."""
+  j = next((i for i, w in enumerate(want) if _is_excval(w)), None)
+  if j is None or got != want[:j]:
+    return None
+  wtype, wmsg = want[j]
+  if end[0] == 'exc' and end[1] == wtype and end[2] == wmsg:
+    return 'exception-valued-iterator-element'
+  if wtype == 'StopIteration' and end[0] == 'stop':
+    return 'exception-valued-iterator-element'
+  return None
+
+
 def case_iterators(ctx, env, rng, cid):
   from vlib import c14lib
   from ml_metrics._src.utils import iter_utils
@@ -186,13 +282,20 @@ def case_iterators(ctx, env, rng, cid):
   fail_at = rng.choice([None, None, rng.randint(0, max(n, 1))])
   case = {'kind': 'iter', 'cid': cid}
   kind = rng.choice(['remote_iterator', 'remote_iterator_async', 'queue_get',
-                     'queue_get_batch', 'queue_async', 'object_iter'])
+                     'queue_get_batch', 'queue_async', 'object_iter',
+                     'async_iter', 'async_iter'])
+  if kind == 'async_iter':
+    return case_async_iter(ctx, env, rng, cid, n, fail_at)
+  elems = _gen_elems(rng) if rng.random() < 0.3 else None
+  if elems is not None:
+    fail_at = None
+    n = len(elems)
 
   def drain_sync(nxt):
     out = []
     for _ in range(n + 3):
       try:
-        v = nxt()
+        v = c14lib.norm(nxt())
       except StopIteration as e:
         return out, ('stop', tuple(e.args))
       except Exception as e:  # pylint: disable=broad-exception-caught
@@ -200,24 +303,39 @@ def case_iterators(ctx, env, rng, cid):
       out.extend(v) if isinstance(v, list) else out.append(v)
     return out, ('no_end',)
 
+  def source():
+    if elems is not None:
+      return c14lib.elem_gen(elems, 'ret')
+    return c14lib.counting_gen(n, 'ret', fail_at)
+
   want = []
   want_end = None
   try:
-    g = c14lib.counting_gen(n, 'ret', fail_at)
+    g = source()
     while True:
-      want.append(next(g))
+      want.append(c14lib.norm(next(g)))
   except StopIteration as e:
     want_end = ('stop', ('ret',) if e.value is not None else ())
   except (c14lib.AppError, TimeoutError) as e:
     want_end = ('exc', type(e).__name__, str(e))
+  has_exc_elems = any(_is_excval(w) for w in want)
+  if has_exc_elems:
+    ctx.count('exc_valued_streams')
+
+  def mech_for(default, got, end):
+    return _exc_elem_mechanism(want, got, end) or default
 
   if kind in ('remote_iterator', 'remote_iterator_async', 'object_iter'):
     ctx.count('iterator_cases')
-    lazy_gen = env.lazy_fns.trace(c14lib.counting_gen)(n, 'ret', fail_at)
+    if elems is not None:
+      lazy_gen = env.lazy_fns.trace(c14lib.elem_gen)(elems, 'ret')
+    else:
+      lazy_gen = env.lazy_fns.trace(c14lib.counting_gen)(n, 'ret', fail_at)
     if kind == 'object_iter':
-      ro = env.client.get_result(env.lazy_fns.trace(c14lib.mk_list)(*range(n), lazy_result_=True))
+      items = c14lib.elem_list(elems) if elems is not None else list(range(n))
+      ro = env.client.get_result(env.lazy_fns.trace(c14lib.mk_list)(*items, lazy_result_=True))
       got, end = drain_sync(iter(ro).__next__)
-      want, want_end = list(range(n)), ('stop', ())
+      want, want_end = c14lib.norm(items), ('stop', ())
     else:
       it = env.cu.RemoteIterator.new(lazy_gen, server_addr=env.client)
       if kind == 'remote_iterator':
@@ -227,7 +345,7 @@ def case_iterators(ctx, env, rng, cid):
           out = []
           try:
             async for x in it:
-              out.append(x)
+              out.append(c14lib.norm(x))
               if len(out) > n + 5:
                 return out, ('no_end',)
           except Exception as e:  # pylint: disable=broad-exception-caught
@@ -237,12 +355,14 @@ def case_iterators(ctx, env, rng, cid):
     # StopIteration of a plain remote iterator carries the generator return value
     ok_end = (end[0] == want_end[0]) and (end[0] != 'exc' or end[1:] == want_end[1:])
     if got != want or not ok_end:
-      ctx.violation('remote_iterator_differs', case,
-                    {'kind': kind, 'n': n, 'fail_at': fail_at, 'got': got, 'end': repr(end),
-                     'want': want, 'want_end': repr(want_end)},
-                    mechanism=f'remote-iterator:{kind}')
+      mech = mech_for(f'remote-iterator:{kind}', got, end)
+      ctx.violation('exception_element_not_yielded' if mech == 'exception-valued-iterator-element'
+                    else 'remote_iterator_differs', case,
+                    {'kind': kind, 'n': n, 'fail_at': fail_at, 'elems': elems, 'got': repr(got),
+                     'end': repr(end), 'want': repr(want), 'want_end': repr(want_end)},
+                    mechanism=mech)
     # exhaustion is stable: a further next() keeps signalling the end
-    if kind == 'remote_iterator' and end[0] == 'stop':
+    elif kind == 'remote_iterator' and end[0] == 'stop':
       again = _outcome(it.__next__)
       if again[0] != 'exc' or again[1] != 'StopIteration':
         ctx.violation('exhaustion_not_stable', case, {'again': repr(again)},
@@ -250,7 +370,7 @@ def case_iterators(ctx, env, rng, cid):
   else:
     ctx.count('queue_cases')
     q = iter_utils.IteratorQueue(rng.choice([0, 1, 2]), name=f'c14q{cid}')
-    t = threading.Thread(target=lambda: _swallow(q.enqueue_from_iterator, c14lib.counting_gen(n, 'ret', fail_at)), daemon=True)
+    t = threading.Thread(target=lambda: _swallow(q.enqueue_from_iterator, source()), daemon=True)
     t.start()
     rq = env.cu.RemoteIteratorQueue.new(q, server_addr=env.client, name=f'rq{cid}')
     if kind == 'queue_get':
@@ -262,25 +382,149 @@ def case_iterators(ctx, env, rng, cid):
         out = []
         try:
           async for x in rq:
-            out.append(x)
+            out.append(c14lib.norm(x))
             if len(out) > n + 5:
               return out, ('no_end',)
         except Exception as e:  # pylint: disable=broad-exception-caught
           return out, ('exc', type(e).__name__, str(e))
         return out, ('stop', None)
       got, end = env.run_async(drain_q())
-    t.join(5)
     ok_end = (end[0] == want_end[0]) and (end[0] != 'exc' or end[1:] == want_end[1:])
     if want_end[0] == 'stop' and end[0] == 'stop' and end[1] is not None and kind != 'queue_async':
       ok_end = ok_end and tuple(end[1]) == want_end[1]
     # on failure the queue may drop still-queued elements (C05), but never reorder/duplicate
     elems_ok = got == want if want_end[0] == 'stop' else got == want[:len(got)]
     if not elems_ok or not ok_end:
-      ctx.violation('remote_queue_differs', case,
-                    {'kind': kind, 'n': n, 'fail_at': fail_at, 'got': got, 'end': repr(end),
-                     'want': want, 'want_end': repr(want_end)},
-                    mechanism=f'remote-queue:{kind}')
-  ctx.case(('iter', kind, n, fail_at), True)
+      mech = mech_for(f'remote-queue:{kind}', got, end)
+      q.maybe_stop()   # the producer may still be parked on the bounded buffer
+      ctx.violation('exception_element_not_yielded' if mech == 'exception-valued-iterator-element'
+                    else 'remote_queue_differs', case,
+                    {'kind': kind, 'n': n, 'fail_at': fail_at, 'elems': elems, 'got': repr(got),
+                     'end': repr(end), 'want': repr(want), 'want_end': repr(want_end)},
+                    mechanism=mech)
+    t.join(5)
+  ctx.case(('iter', kind, n, fail_at, elems), True)
+
+
+def case_async_iter(ctx, env, rng, cid, n, fail_at):
+  """CourierClient.async_iter / async_remote_iter against list(maybe_make(expr))."""
+  from vlib import c14lib
+  tr = env.lazy_fns.trace
+  src = rng.choice(['ok', 'ok', 'ok', 'ctor_raises', 'ctor_raises', 'arg_raises',
+                    'not_iterable', 'iter_raises'])
+  buffer_size = rng.choice([0, 1, 2])
+  entry = rng.choice(['client.async_iter', 'async_remote_iter'])
+  if src == 'ok':
+    lazy = tr(c14lib.counting_gen)(n, 'ret', fail_at)
+  elif src == 'ctor_raises':
+    lazy = tr(c14lib.open_source)(rng.choice(['notfound', 'app', 'key', 'value']),
+                                  rng.choice(['no such dataset', 'shard 3']))
+  elif src == 'arg_raises':
+    lazy = tr(c14lib.counting_gen)(tr(c14lib.boom)(rng.choice(['value', 'app', 'zero']), 'bad arg'))
+  elif src == 'not_iterable':
+    lazy = tr(c14lib.add)(1, rng.randint(0, 3))
+  else:
+    lazy = tr(c14lib.BadIterable)('cannot iterate')
+  case = {'kind': 'async_iter', 'cid': cid}
+  desc = {'src': src, 'n': n, 'fail_at': fail_at, 'buffer_size': buffer_size, 'entry': entry,
+          'expr': str(lazy)[:120]}
+  ctx.count('async_iter_cases')
+  ctx.case(('async_iter', src, n, fail_at, buffer_size, entry), True)
+
+  # local twin: list(maybe_make(expr))
+  want, want_end = [], None
+  try:
+    it = iter(env.lazy_fns.maybe_make(lazy))
+    while True:
+      want.append(c14lib.norm(next(it)))
+  except StopIteration:
+    want_end = ('stop', None)
+  except Exception as e:  # pylint: disable=broad-exception-caught
+    want_end = ('exc', type(e).__name__, str(e))
+  construction_fails = want_end[0] == 'exc' and src != 'ok'
+  if construction_fails:
+    ctx.count('async_iter_construction_failures')
+
+  n0 = len(env.pool.futs)
+
+  async def open_():
+    if entry == 'client.async_iter':
+      return await env.client.async_iter(lazy, buffer_size=buffer_size, name=f'ai{cid}')
+    return await env.cu.async_remote_iter(lazy, worker=env.client, buffer_size=buffer_size,
+                                          name=f'ai{cid}')
+
+  try:
+    rq = env.run_async(open_())
+  except _cf.TimeoutError:
+    ctx.inconclusive_case('async_iter did not return in 30s', case)
+    return
+  except Exception as e:  # pylint: disable=broad-exception-caught
+    # Reporting the construction error from async_iter itself is just as good.
+    got, end = [], ('exc', type(e).__name__, str(e))
+    if end != want_end:
+      ctx.violation('async_iter_differs', case, dict(desc, got=repr(got), end=repr(end),
+                                                     want=repr(want), want_end=repr(want_end)),
+                    mechanism='async-iter:open-raised')
+    return
+  # The enqueue task was fired without waiting: wait until it has started or finished.
+  q = env.lazy_fns.maybe_make(rq._queue.value)  # pylint: disable=protected-access
+  deadline = _time.monotonic() + 20
+  fut = None
+  while True:
+    fut = env.pool.futs[n0] if len(env.pool.futs) > n0 else None
+    if fut is not None and fut.done():
+      break
+    if q.enqueue_done or q.exhausted or q.progress.cnt > 0 or getattr(q, '_max_enqueuer', 0) > 0:
+      break
+    if _time.monotonic() > deadline:
+      ctx.inconclusive_case('the enqueue task of async_iter did not start in 20s', case)
+      return
+    _time.sleep(0.0005)
+  swallowed = fut.exception() if fut is not None and fut.done() else None
+  dead = (swallowed is not None and q.exception is None and not q.exhausted
+          and not q.enqueue_done and getattr(q, '_enqueue_start', 0) == getattr(q, '_enqueue_stop', 0))
+  if dead:
+    sw = ('exc', type(swallowed).__name__, str(swallowed))
+    detail = dict(desc, swallowed_on_server=repr(sw), want_end=repr(want_end),
+                  queue_state={'exception': None, 'exhausted': False, 'enqueue_done': False,
+                               'enqueuers': 0},
+                  consequence='no consumer call can ever return: nothing records the error, '
+                              'no enqueuer exists that could end the stream')
+    if not env.probed:
+      # Show once per chunk what a client sees (a 0.4s deadline is used only for this detail).
+      env.probed = True
+      probe_client = env.cu.CourierClient(env.server.address, call_timeout=0.4)
+      probe = env.cu.RemoteIteratorQueue(
+          env.cu.RemoteObject.new(rq._queue.value, worker=probe_client), name='probe')  # pylint: disable=protected-access
+      detail['client_with_0.4s_deadline_sees'] = repr(_outcome(probe.get_batch))
+    q.maybe_stop()   # releases any handler parked in the dead queue
+    mech = ('async-iter-construction-error-swallowed'
+            if construction_fails and sw == want_end else 'async-iter:dead-queue')
+    ctx.violation('async_iter_error_lost', case, detail, mechanism=mech)
+    return
+
+  async def drain():
+    out = []
+    try:
+      async for x in rq:
+        out.append(c14lib.norm(x))
+        if len(out) > n + 5:
+          return out, ('no_end',)
+    except Exception as e:  # pylint: disable=broad-exception-caught
+      return out, ('exc', type(e).__name__, str(e))
+    return out, ('stop', None)
+
+  try:
+    got, end = env.run_async(drain())
+  except _cf.TimeoutError:
+    q.maybe_stop()
+    ctx.inconclusive_case('async iteration did not finish in 30s', case)
+    return
+  elems_ok = got == want if want_end[0] == 'stop' else got == want[:len(got)]
+  if not elems_ok or end != want_end:
+    ctx.violation('async_iter_differs', case, dict(desc, got=repr(got), end=repr(end),
+                                                   want=repr(want), want_end=repr(want_end)),
+                  mechanism=f'async-iter:{src}')
 
 
 def _swallow(fn, *a):
@@ -321,9 +565,11 @@ def case_concurrent(ctx, env, rng, cid):
     for spec, remote in out:
       local = _outcome(lambda: c14lib.eval_eager(spec))
       if not _same(local, remote):
-        ctx.violation('concurrent_remote_differs', case,
+        mech = _expr_mechanism(local, remote, 'remote-eval-differs-concurrent')
+        ctx.violation('exception_value_raised_by_client' if not mech.startswith('remote-eval')
+                      else 'concurrent_remote_differs', case,
                       {'spec': spec, 'local': repr(local), 'remote': repr(remote)},
-                      mechanism='remote-eval-differs-concurrent')
+                      mechanism=mech)
   ctx.case(('concurrent', specs), True)
 
 
@@ -388,7 +634,7 @@ def case_shutdown(ctx, env, rng, cid):
     if value[0] == 'ok' and value[1] != 7:
       ctx.violation('wrong_value_on_shutdown', case, {'got': repr(value)},
                     mechanism='shutdown-wrong-value')
-    if not (init[0] == 'ok' and isinstance(init[1], TimeoutError)):
+    if not (init[0] == 'ok' and _is_excval(init[1]) and init[1][0] == 'TimeoutError'):
       ctx.violation('init_generator_not_refused', case, {'got': repr(init)},
                     mechanism='shutdown-init-not-refused')
     ctx.case(('shutdown', cid % 3), True)
@@ -399,13 +645,334 @@ def case_shutdown(ctx, env, rng, cid):
       pass
 
 
+# ---------------------------------------------------------------------------
+# Scenario cases (mode 'scen')
+# ---------------------------------------------------------------------------
+
+_GRACE_S = 0.4
+
+
+def _fn_lru(lazy_fns):
+  return lazy_fns.LazyFn.result_.cache_info.__self__
+
+
+def _release_when_overlapping(gate, want, threads):
+  """Opens the gate when `want` callers are inside, or _GRACE_S after the first one
+  (a serialising implementation lets only one in), or when nobody can arrive any more."""
+  t_first = None
+  hard = _time.monotonic() + 25
+  while True:
+    e = gate['entered']
+    now = _time.monotonic()
+    if e >= want or now > hard or not any(t.is_alive() for t in threads):
+      break
+    if e >= 1:
+      t_first = t_first or now
+      if now - t_first > _GRACE_S:
+        break
+    _time.sleep(0.0005)
+  overlap = gate['entered']
+  gate['go'].set()
+  return overlap
+
+
+def _clients(env, k, distinct):
+  out = []
+  for i in range(k):
+    c = env.cu.CourierClient(env.server.address, call_timeout=30 + (i + 1 if distinct else 0))
+    c.wait_until_alive(deadline_secs=20)
+    out.append(c)
+  return out
+
+
+def scen_cached_concurrent(ctx, env, rng, cid):
+  """k clients request `cached_model.bump()` at the same time; eager twin: ONE model, k bumps."""
+  from vlib import c14lib
+  tr = env.lazy_fns.trace
+  key = f'g{cid}'
+  k = rng.randint(2, 4)
+  flavour = rng.choice(['class', 'loader'])
+  form = rng.choice(['chain', 'nested', 'chain_async'])
+  distinct = rng.random() < 0.5
+  start = rng.randint(0, 2)
+  gate = c14lib.new_gate(key)
+  callee = c14lib.GatedModel if flavour == 'class' else c14lib.gated_load
+  lazy_model = tr(callee)(key, start, cache_result_=True)
+
+  def expr():
+    e = lazy_model.bump(1)
+    return tr(c14lib.add)(e, 0) if form == 'nested' else e
+
+  case = {'kind': 'cached_concurrent', 'cid': cid, 'mode': 'scen'}
+  desc = {'clients': k, 'distinct_client_objects': distinct, 'callee': flavour, 'form': form,
+          'start': start}
+  ctx.count('scen_cached_concurrent')
+  ctx.case(('cached_concurrent', k, flavour, form, distinct, start), True)
+  clients = _clients(env, k, distinct)
+  env.lazy_fns.clear_cache()
+  results = [None] * k
+
+  def worker(i):
+    if form == 'chain_async':
+      results[i] = _outcome(lambda: env.run_async(clients[i].async_get_result(expr())))
+    else:
+      results[i] = _outcome(lambda: clients[i].get_result(expr()))
+
+  ths = [threading.Thread(target=worker, args=(i,), daemon=True) for i in range(k)]
+  try:
+    for t in ths:
+      t.start()
+    overlap = _release_when_overlapping(gate, k, ths)
+    for t in ths:
+      t.join(40)
+    gate['armed'] = False
+    if any(t.is_alive() for t in ths):
+      ctx.inconclusive_case('concurrent cached calls did not finish in 40s', case)
+      return
+    final = _outcome(lambda: env.client.get_result(expr()))
+    constructed = c14lib.CONSTRUCTED[key]
+    info = env.lazy_fns.cache_info()
+  finally:
+    gate['armed'] = False
+    gate['go'].set()
+    env.lazy_fns.clear_cache()
+  if overlap >= 2:
+    ctx.count('scen_overlap_forced')
+  want = [('ok', start + j) for j in range(1, k + 1)]
+  got_sorted = sorted(results, key=repr)
+  ok = constructed == 1 and got_sorted == sorted(want, key=repr) and final == ('ok', start + k + 1)
+  if not ok:
+    per_caller = constructed > 1 and overlap >= 2
+    ctx.violation('cached_call_evaluated_more_than_once' if per_caller
+                  else 'concurrent_cached_call_differs', case,
+                  dict(desc, constructed=constructed, callers_inside_constructor_at_once=overlap,
+                       results=repr(results), next_call=repr(final),
+                       want_results=repr(want), want_next=repr(('ok', start + k + 1)),
+                       cache_info=repr(info)),
+                  mechanism='cached-call-evaluated-per-concurrent-caller' if per_caller
+                  else 'concurrent-cached-call:other')
+
+
+def scen_lru_race(ctx, env, rng, cid):
+  """2-3 clients insert distinct cached calls into a FULL cache at the same time."""
+  from vlib import c14lib
+  tr = env.lazy_fns.trace
+  key = f'h{cid}'
+  bound = rng.randint(1, 5)
+  k = rng.randint(2, 3)
+  distinct = rng.random() < 0.5
+  lru = _fn_lru(env.lazy_fns)
+  saved = lru.maxsize
+  gate = c14lib.new_gate(key, victim=0)
+  gate['armed'] = False
+  case = {'kind': 'lru_race', 'cid': cid, 'mode': 'scen'}
+  desc = {'cache_bound': bound, 'clients': k, 'distinct_client_objects': distinct}
+  ctx.count('scen_lru_race')
+  ctx.case(('lru_race', bound, k, distinct), True)
+  clients = _clients(env, k, distinct)
+  mk = lambda n: tr(c14lib.build_cfg)(c14lib.HashGate(n, key), cache_result_=True)
+  env.lazy_fns.clear_cache()
+  lru.maxsize = bound
+  results = [None] * k
+  try:
+    fill = [_outcome(lambda i=i: env.client.get_result(mk(i))) for i in range(bound)]
+    if fill != [('ok', ('built', i, 0)) for i in range(bound)]:
+      ctx.violation('remote_differs_from_local', case, dict(desc, fill=repr(fill)),
+                    mechanism='lru-race:fill')
+      return
+    gate['armed'] = True     # from now on hashing the oldest entry (the eviction victim) waits
+
+    def worker(i):
+      results[i] = _outcome(lambda: clients[i].get_result(mk(1000 + i)))
+
+    ths = [threading.Thread(target=worker, args=(i,), daemon=True) for i in range(k)]
+    for t in ths:
+      t.start()
+    overlap = _release_when_overlapping(gate, 2, ths)
+    for t in ths:
+      t.join(40)
+    gate['armed'] = False
+    if any(t.is_alive() for t in ths):
+      ctx.inconclusive_case('concurrent inserts did not finish in 40s', case)
+      return
+    after = _outcome(lambda: env.client.get_result(mk(2000)))
+    state = {'len_data': len(lru.data), 'currsize': lru.currsize, 'maxsize': lru.maxsize}
+  finally:
+    gate['armed'] = False
+    gate['go'].set()
+    lru.maxsize = saved
+    env.lazy_fns.clear_cache()
+  if overlap >= 2:
+    ctx.count('scen_overlap_forced')
+  want = [('ok', ('built', 1000 + i, 0)) for i in range(k)]
+  bad = [r for r in results if r[0] != 'ok']
+  inv_ok = state['len_data'] == state['currsize'] <= state['maxsize']
+  if results != want or after != ('ok', ('built', 2000, 0)) or not inv_ok:
+    keyerr = (overlap >= 2 and bad and all(
+        r[1] == 'KeyError' and 'HashGate(0)' in r[2] for r in bad))
+    if keyerr:
+      kind, mech = 'valid_cached_call_raised_keyerror', 'lru-eviction-race-keyerror'
+    elif not bad and after[0] == 'ok' and not inv_ok:
+      kind, mech = 'lru_bound_or_size_wrong', 'lru-concurrent-insert:invariant'
+    else:
+      kind, mech = 'concurrent_insert_differs', 'lru-concurrent-insert:other'
+    ctx.violation(kind, case,
+                  dict(desc, inserters_evicting_the_same_victim=overlap,
+                       results=[r[:2] + (r[2][:160],) if r[0] == 'exc' else r for r in results],
+                       want=repr(want), next_insert=repr(after)[:200], cache_after=state),
+                  mechanism=mech)
+
+
+def scen_ident_cached(ctx, env, rng, cid):
+  """One cached LazyFn whose callable / argument is pickled by value, requested 2-4 times."""
+  from vlib import c14lib
+  tr, lf = env.lazy_fns.trace, env.lazy_fns
+  flavour = rng.choice(['lambda', 'closure', 'partial', 'cfg_arg', 'cfg_kwarg', 'importable'])
+  start = rng.randint(0, 3)
+  reps = rng.randint(2, 4)
+  use_async = rng.random() < 0.3
+  if flavour in ('lambda', 'closure', 'partial'):
+    lazy_model = tr(c14lib.byvalue_loader(flavour, start))(cache_result_=True)
+  elif flavour == 'cfg_arg':
+    lazy_model = tr(c14lib.load_with_cfg)(c14lib.PlainCfg(start), cache_result_=True)
+  elif flavour == 'cfg_kwarg':
+    lazy_model = tr(c14lib.load_with_cfg)(cfg=c14lib.PlainCfg(start), cache_result_=True)
+  else:
+    lazy_model = tr(c14lib.Counter)(start, cache_result_=True)
+  case = {'kind': 'ident_cached', 'cid': cid, 'mode': 'scen'}
+  desc = {'flavour': flavour, 'start': start, 'requests': reps, 'async': use_async}
+  ctx.count('scen_ident_control' if flavour == 'importable' else 'scen_ident_cached')
+  ctx.case(('ident_cached', flavour, start, reps, use_async), True)
+  try:
+    lf.clear_cache()
+    local = [_outcome(lambda: lf.maybe_make(lazy_model.bump(1))) for _ in range(reps)]
+    lf.clear_cache()
+    if use_async:
+      remote = [_outcome(lambda: env.run_async(env.client.async_get_result(lazy_model.bump(1))))
+                for _ in range(reps)]
+    else:
+      remote = [_outcome(lambda: env.client.get_result(lazy_model.bump(1))) for _ in range(reps)]
+    info = lf.cache_info()
+  finally:
+    lf.clear_cache()
+  if remote != local:
+    a = lf.pickler.loads(lf.pickler.dumps(lazy_model))
+    b = lf.pickler.loads(lf.pickler.dumps(lazy_model))
+    eq_but_hash_differs = bool(a == b) and hash(a) != hash(b)
+    reevaluated = all(r == ('ok', start + 1) for r in remote) and info.misses == reps
+    root = flavour != 'importable' and eq_but_hash_differs and reevaluated
+    ctx.violation('cached_call_reevaluated_per_request' if root else 'ident_cached_differs', case,
+                  dict(desc, local=repr(local), remote=repr(remote), server_cache=repr(info),
+                       two_unpickled_copies={'eq': bool(a == b), 'same_id': a.id == b.id,
+                                             'hash_eq': hash(a) == hash(b)}),
+                  mechanism='cached-lazyfn-identity-hash-reevaluated-after-pickle' if root
+                  else 'ident-cached:other')
+
+
+def scen_restart(ctx, env, rng, cid):
+  """start; (stop; start) x cycles; stop - with evaluations while the server runs."""
+  from vlib import c14lib
+  from ml_metrics._src.chainables import courier_server
+  tr = env.lazy_fns.trace
+  prefetch = rng.random() < 0.5
+  cycles = rng.randint(1, 2)
+  cls = courier_server.PrefetchedCourierServer if prefetch else courier_server.CourierServer
+  name = env.cwork.unique('c14rs')
+  case = {'kind': 'restart', 'cid': cid, 'mode': 'scen'}
+  desc = {'server': cls.__name__, 'restarts': cycles}
+  ctx.count('scen_restart')
+  ctx.case(('restart', prefetch, cycles, cid % 4), True)
+  srv = cls(name)
+  client = env.cu.CourierClient(name, call_timeout=10)
+  a, b = rng.randint(0, 5), rng.randint(0, 5)
+  nn = rng.randint(0, 4)
+
+  def equivalence(where):
+    """Evaluations on the running server behave like local ones."""
+    probes = [
+        ('value', lambda: client.get_result(tr(c14lib.add)(a, b)), ('ok', a + b)),
+        ('raising', lambda: client.get_result(tr(c14lib.boom)('value', 'x y')),
+         ('exc', 'ValueError', 'x y')),
+        ('iterator', lambda: list(env.cu.RemoteIterator.new(range(nn), server_addr=client)),
+         ('ok', list(range(nn)))),
+    ]
+    for what, fn, want in probes:
+      ctx.count('restart_equivalence_checks')
+      got = _outcome(fn)
+      if got != want:
+        return {'where': where, 'probe': what, 'got': repr(got), 'want': repr(want)}
+    return None
+
+  def join(th):
+    th.join(20)
+    return not th.is_alive()
+
+  try:
+    th = srv.start()
+    client.wait_until_alive(deadline_secs=10)
+    diff = equivalence('first run')
+    if diff:
+      ctx.violation('remote_differs_from_local', case, dict(desc, **diff),
+                    mechanism='restart:first-run-differs')
+      return
+    for c in range(cycles + 1):
+      th = srv.stop()
+      if not join(th):
+        ctx.inconclusive_case('server thread did not finish 20s after stop()', case)
+        return
+      if srv.has_started:
+        # stop().join() returned but the server is still up (and flagged as shutting down).
+        supervisor = bool(c and sup_alive)
+        zombie = {
+            'value_call': repr(_outcome(lambda: client.get_result(tr(c14lib.add)(2, 5)))),
+            'raising_call (locally ValueError: x y)': repr(_outcome(
+                lambda: client.get_result(tr(c14lib.boom)('value', 'x y')))),
+            'list(RemoteIterator(range(2)))': repr(_outcome(
+                lambda: list(env.cu.RemoteIterator.new(range(2), server_addr=client)))),
+        }
+        lost = c > 0 and not supervisor
+        ctx.violation('restarted_server_cannot_be_stopped' if lost else 'server_not_stopped', case,
+                      dict(desc, stop_number=c + 1, has_started_after_stop_join=True,
+                           supervising_thread_alive_after_restart=supervisor,
+                           answers_after_stop=zombie),
+                      mechanism='server-restart-loses-supervisor' if lost
+                      else 'server-stop-incomplete')
+        return
+      if c == cycles:
+        break
+      th2 = srv.start()
+      sup_alive = th2.is_alive()
+      client.wait_until_alive(deadline_secs=10)
+      diff = equivalence(f'after restart {c + 1}')
+      if diff:
+        ctx.violation('remote_differs_from_local', case,
+                      dict(desc, supervising_thread_alive_after_restart=sup_alive, **diff),
+                      mechanism='server-restart-loses-supervisor' if not sup_alive
+                      else 'restart:remote-eval-differs')
+        return
+  finally:
+    try:
+      srv._request_shutdown()  # pylint: disable=protected-access
+      if srv._server is not None:  # pylint: disable=protected-access
+        srv._server.Stop()  # pylint: disable=protected-access
+    except Exception:  # pylint: disable=broad-exception-caught
+      pass
+
+
+_SCENARIOS = [scen_cached_concurrent, scen_lru_race, scen_ident_cached, scen_restart]
+
+
 def run_chunk(ctx, spec):
   import courier
   env = Env()
   try:
     rng = random.Random(spec['rseed'] * 1000003 + spec['chunk'] * 7 + 3)
+    mode = spec.get('mode', 'mixed')
     for i in range(spec['n']):
       cid = spec['chunk'] * 100000 + i
+      if mode == 'scen':
+        _SCENARIOS[i % len(_SCENARIOS)](ctx, env, rng, cid)
+        continue
       r = i % 10
       if r < 4:
         case_expr(ctx, env, rng, cid)
@@ -425,5 +992,7 @@ def run_chunk(ctx, spec):
 
 def run_case(ctx, case):
   cid = case['cid']
-  run_chunk(ctx, {'chunk': cid // 100000, 'n': (cid % 100000) + 1,
-                  'rseed': ctx.spec.get('seed', 0)})
+  chunk = cid // 100000
+  run_chunk(ctx, {'chunk': chunk, 'n': (cid % 100000) + 1,
+                  'rseed': ctx.spec.get('seed', 0),
+                  'mode': 'scen' if chunk >= 1000 else 'mixed'})
